@@ -25,7 +25,8 @@ avars == <<files, evalLock, fileLock, mpc, cids, pc, ids, snap, regd, sess, cras
 A == INSTANCE Aggregator WITH
         Aggs <- Scen.aggs, Calls <- Scen.calls, InitOut <- Scen.initout,
         MaxCrashes <- 1000, MaxSessions <- 1000, NormalExit <- Scen.normalexit, MaxWorkerKills <- 0,
-        HeaderOnEmpty <- Scen.headeronempty, OwnBuffer <- Scen.ownbuffer, HeaderNoClaim <- Scen.headernoclaim
+        HeaderOnEmpty <- Scen.headeronempty, OwnBuffer <- Scen.ownbuffer, HeaderNoClaim <- Scen.headernoclaim,
+        SplitWrites <- Scen.splitwrites, StatWrongLock <- FALSE
 
 Ev == Traces[tid].ev
 TInit == A!Init /\ tid \in 1..Len(Traces) /\ l = 0
